@@ -77,7 +77,7 @@ m = {
  ],
  'checks': checks,
  'not_applicable': [{'property_id': k, 'reason': v} for k, v in sorted(NA.items())],
- 'notes': 'exit 2 = undecided (anchor lost / unsupported construct / solver limit / only a proof hint fails and no failing input exists within the RAC bound), never an alarm. Eighteen fix commits in /repo (D1-D3, D6-D20) and seven known findings (D4 pos_conv final line, D5 edit distance beyond 254 chars, D21-D25 comment front-ends offering fenced / directive / <pre> text as prose) are listed in known_findings.txt and DESIGN.md section 4.',
+ 'notes': 'exit 2 = undecided (anchor lost / unsupported construct / solver limit / only a proof hint fails and no failing input exists within the RAC bound), never an alarm. Eighteen fix commits in /repo (D1-D3, D6-D20) and nine known findings (D4 pos_conv final line, D5 edit distance beyond 254 chars, D21-D25 comment front-ends offering fenced / directive / <pre> text as prose, D26-D27 ordinals followed by a possessive or inside square brackets) are listed in known_findings.txt and DESIGN.md section 4.',
 }
 json.dump(m, open('/verif/MANIFEST.json', 'w'), indent=1)
 print('MANIFEST.json written:', [c['property_id'] for c in checks])
